@@ -387,7 +387,8 @@ func (n1 numDatum) equalTo(n2 Datum) error {
 }
 
 func (n numDatum) Boolean(context string) bool {
-	if n.num != 0 {
+	// True if and only if neither positive or negative zero nor NaN.
+	if n.num != 0 && !math.IsNaN(n.num) {
 		return true
 	}
 
